@@ -170,13 +170,13 @@ Proof. reflexivity. Qed.
 
 (* ------------------------------------------------------------------ the repaired function *)
 
-Lemma mpf_loop_spec lw : forall n pat t, (length pat <= n)%nat -> alternating pat = true ->
-  mpf_loop lw t pat = Ok (wild (parts_of lw pat) t).
+Lemma mpa_loop_spec lw : forall n pat t, (length pat <= n)%nat -> alternating pat = true ->
+  mpa_loop lw t pat = Ok (wild (parts_of lw pat) t).
 Proof.
   induction n as [|n IH]; intros pat t Hn Ha.
   - destruct pat; [|simpl in Hn; lia]. reflexivity.
   - destruct pat as [|p rest]; [reflexivity|].
-    cbn [mpf_loop]. rewrite parts_of_cons. destruct (is_star p) eqn:Sp.
+    cbn [mpa_loop]. rewrite parts_of_cons. destruct (is_star p) eqn:Sp.
     + destruct rest as [|nxt rest'].
       * cbn [parts_of map wild]. rewrite wild_star_nil. reflexivity.
       * pose proof (alternating_flip _ _ _ Ha) as Sn. rewrite Sp in Sn. simpl in Sn.
@@ -201,12 +201,12 @@ Proof.
       apply IH; [simpl in *; lia | eapply alternating_tail; eassumption].
 Qed.
 
-Theorem fixed_spec lw rsv : forall s pat, alternating pat = true ->
-  match_pattern_fixed_with lw rsv s pat = Ok (glob_matches_with lw rsv s pat).
+Theorem anchored_spec lw rsv : forall s pat, alternating pat = true ->
+  match_pattern_anchored_with lw rsv s pat = Ok (glob_matches_with lw rsv s pat).
 Proof.
-  intros s pat Ha. unfold match_pattern_fixed_with, glob_matches_with.
+  intros s pat Ha. unfold match_pattern_anchored_with, glob_matches_with.
   destruct pat as [|p rest]; [reflexivity|]. destruct (rsv s); [reflexivity|]. simpl negb. rewrite andb_true_l.
-  apply (mpf_loop_spec lw (length (p :: rest))); [lia | assumption].
+  apply (mpa_loop_spec lw (length (p :: rest))); [lia | assumption].
 Qed.
 
 (* ------------------------------------------------------------------ the pinned function
@@ -301,14 +301,65 @@ Proof.
   - apply Forall_app. split; [assumption | constructor; [assumption | constructor]].
 Qed.
 
+(* ------------------------------------------------------------------ the repaired function (fix.patch):
+   the same loop on a string that was lower-cased once; no hypothesis on the bytes is needed any more *)
+
+Lemma mpl_loop_spec lw : forall n pat t, (length pat <= n)%nat -> alternating pat = true ->
+  mpl_loop lw t pat = Ok (wild (parts_of lw pat ++ [Star]) t).
+Proof.
+  induction n as [|n IH]; intros pat t Hn Ha.
+  - destruct pat; [|simpl in Hn; lia]. simpl. rewrite wild_star_nil. reflexivity.
+  - destruct pat as [|p rest]; [simpl; rewrite wild_star_nil; reflexivity|].
+    cbn [mpl_loop]. rewrite parts_of_cons. destruct (is_star p) eqn:Sp.
+    + destruct rest as [|nxt rest'].
+      * cbn [parts_of map app wild]. f_equal. symmetry. apply wild_star_spec. exists t, [].
+        rewrite app_nil_r. auto.
+      * pose proof (alternating_flip _ _ _ Ha) as Sn. rewrite Sp in Sn. simpl in Sn.
+        rewrite parts_of_cons, Sn.
+        pose proof (alternating_tail _ _ (alternating_tail _ _ Ha)) as Ha'.
+        cbn [app wild]. rewrite greedy_leftmost.
+        2:{ destruct rest' as [|q r].
+            - cbn [parts_of map app wild]. apply wild_star_mono.
+            - pose proof (alternating_flip _ _ _ (alternating_tail _ _ Ha)) as Sq. rewrite Sn in Sq. simpl in Sq.
+              rewrite parts_of_cons, Sq. cbn [app wild]. apply wild_star_mono. }
+        destruct (index t (lw nxt)) as [j|] eqn:I; [|reflexivity].
+        rewrite slice_from_ok by (eapply index_bound; eassumption).
+        apply IH; [simpl in *; lia | assumption].
+    + cbn [app wild]. rewrite strip_prefix_has_prefix. destruct (has_prefix t (lw p)) eqn:HP; [|reflexivity].
+      rewrite slice_from_ok by (apply has_prefix_length; assumption).
+      apply IH; [simpl in *; lia | eapply alternating_tail; eassumption].
+Qed.
+
+Theorem fixed_spec lw rsv : forall s pat, pat <> [] -> alternating pat = true ->
+  match_pattern_fixed_with lw rsv s pat = Ok (glob_matches_with lw rsv s (pat ++ [star])).
+Proof.
+  intros s pat Hne Ha. unfold match_pattern_fixed_with, glob_matches_with.
+  destruct pat as [|p rest]; [congruence|]. cbn [app]. destruct (rsv s); [reflexivity|]. simpl negb. rewrite andb_true_l.
+  rewrite (mpl_loop_spec lw (length (p :: rest))); try assumption; [|lia].
+  change (p :: rest ++ [star]) with ((p :: rest) ++ [star]). rewrite parts_of_app. reflexivity.
+Qed.
+
+Theorem fixed_spec_trailing_star lw rsv : forall s pat, alternating (pat ++ [star]) = true ->
+  match_pattern_fixed_with lw rsv s (pat ++ [star]) = Ok (glob_matches_with lw rsv s (pat ++ [star])).
+Proof.
+  intros s pat Ha. rewrite fixed_spec; try assumption.
+  - f_equal. unfold glob_matches_with.
+    destruct (pat ++ [star]) eqn:E1; [destruct pat; discriminate|]. rewrite <- E1.
+    destruct ((pat ++ [star]) ++ [star]) eqn:E2; [destruct pat; discriminate|]. rewrite <- E2.
+    f_equal. rewrite !parts_of_app. change (parts_of lw [star]) with [Star]. apply wild_app_star_star.
+  - destruct pat; discriminate.
+Qed.
+
 (* ------------------------------------------------------------------ reserved keywords *)
 
 Theorem never_reserved lw rsv s pat : pat <> [] -> rsv s = true ->
-  match_pattern_pinned_with lw rsv s pat = Ok false /\
   match_pattern_fixed_with lw rsv s pat = Ok false /\
+  match_pattern_pinned_with lw rsv s pat = Ok false /\
+  match_pattern_anchored_with lw rsv s pat = Ok false /\
   glob_matches_with lw rsv s pat = false.
 Proof.
-  intros Hne Hr. unfold match_pattern_pinned_with, match_pattern_fixed_with, glob_matches_with.
+  intros Hne Hr.
+  unfold match_pattern_fixed_with, match_pattern_pinned_with, match_pattern_anchored_with, glob_matches_with.
   destruct pat; [congruence|]. rewrite Hr. auto.
 Qed.
 
@@ -394,8 +445,8 @@ Proof. vm_compute. reflexivity. Qed.
 
 (* ------------------------------------------------------------------ statements used by Props.v *)
 
-Lemma thm_fixed_spec : forall s pat, alternating pat = true -> match_pattern_fixed s pat = Ok (glob_matches s pat).
-Proof. intros; apply fixed_spec; assumption. Qed.
+Lemma thm_anchored_spec : forall s pat, alternating pat = true -> match_pattern_anchored s pat = Ok (glob_matches s pat).
+Proof. intros; apply anchored_spec; assumption. Qed.
 
 Lemma thm_tail_refuted :
   exists s pat, alternating pat = true /\ match_pattern_pinned s pat = Ok true /\ glob_matches s pat = false.
@@ -438,9 +489,26 @@ Qed.
 Lemma thm_never_reserved :
   forall s pat, pat <> [] ->
     (go_reserved s = true -> match_pattern_pinned s pat = Ok false) /\
-    (reserved_ci s = true -> match_pattern_fixed s pat = Ok false /\ glob_matches s pat = false).
+    (reserved_ci s = true ->
+       match_pattern_fixed s pat = Ok false /\ match_pattern_anchored s pat = Ok false /\ glob_matches s pat = false).
 Proof.
   intros s pat Hne. split; intro Hr.
   - apply (never_reserved go_lower go_reserved s pat Hne Hr).
-  - split; apply (never_reserved go_lower reserved_ci s pat Hne Hr).
+  - destruct (never_reserved go_lower reserved_ci s pat Hne Hr) as (H1 & _ & H3 & H4). auto.
 Qed.
+
+Lemma thm_fixed_prefix : forall s pat, pat <> [] -> alternating pat = true ->
+  match_pattern_fixed s pat = Ok (glob_matches s (pat ++ [star])).
+Proof. intros; apply fixed_spec; assumption. Qed.
+
+Lemma thm_fixed_trailing : forall s pat, alternating (pat ++ [star]) = true ->
+  match_pattern_fixed s (pat ++ [star]) = Ok (glob_matches s (pat ++ [star])).
+Proof. intros; apply fixed_spec_trailing_star; assumption. Qed.
+
+(* the repaired function on the three witnesses of the offset and keyword defects *)
+Lemma fixed_witnesses :
+  match_pattern_fixed [107] [[226;132;170];[42]] = Ok true /\
+  match_pattern_fixed [196;176;98] [[42];[98];[42];[98];[42]] = Ok false /\
+  match_pattern_fixed [200;186;98] [[42];[98];[42]] = Ok true /\
+  match_pattern_fixed [83;104;97;112;101] [[42]] = Ok false.
+Proof. vm_compute. auto. Qed.
